@@ -58,48 +58,57 @@ Proof. destruct f, d; cbn; lia. Qed.
 Lemma stop_size_ge8 f d : 8 <= stop_size f d.
 Proof. destruct f, d; cbn; lia. Qed.
 
+(* the storage half on a window without a message *)
+Lemma storage_half_short st w :
+  blen w < 20 -> storage_half false st w = if i_det_storage st then Ok AStop else Ok APass.
+Proof.
+  intros H. unfold storage_half. rewrite (parse_storage_short _ _ H). unfold MIN_DLT_MSG_SIZE.
+  destruct (N.leb_spec 20 (blen w)) as [Hc|_]; [lia|]. cbn [orb]. rewrite orb_false_r. reflexivity.
+Qed.
+Lemma storage_half_nopat st w :
+  20 <= blen w -> is_storage_pat w = false ->
+  storage_half false st w = if i_det_storage st then Ok (ASkip (skip1 st)) else Ok APass.
+Proof. intros H Hp. unfold storage_half. rewrite (parse_storage_nopat _ _ H Hp). reflexivity. Qed.
+
 (* ---------------------------------------------------------------- single turns *)
 Lemma turn_skip f fuel st data :
   st_ok f st -> nomark data -> stop_size f (own_detected f st) <= blen data ->
   next (S fuel) st data = next fuel (skip1 st) (skipn 1 data).
 Proof.
-  intros Hok [Hns Hnl] Hlen. unfold next. rewrite next_S. unfold storage_half, serial_half.
+  intros Hok [Hns Hnl] Hlen. unfold next. rewrite next_S.
+  assert (Hsh : i_det_storage st = false -> storage_half false st data = Ok APass).
+  { intros Hd. destruct (N.lt_ge_cases (blen data) 20) as [Hs|Hs].
+    - rewrite (storage_half_short _ _ Hs), Hd. reflexivity.
+    - rewrite (storage_half_nopat _ _ Hs Hns), Hd. reflexivity. }
+  assert (H8 : 8 <= blen data) by (pose proof (stop_size_ge8 f (own_detected f st)); lia).
+  assert (Hse : serial_half st data = Ok (ASkip (skip1 st))).
+  { unfold serial_half. rewrite (parse_serial_nopat _ _ H8 Hnl). reflexivity. }
   destruct f; cbn [st_ok own_detected] in *.
   - rewrite Hok.
-    destruct (N.lt_ge_cases (blen data) 20) as [Hs|Hs].
-    + rewrite (parse_storage_short _ _ Hs).
-      destruct (i_det_storage st) eqn:Hd; cbn [stop_size min_size] in Hlen; [lia|].
-      cbn [orb bind]. rewrite (parse_serial_nopat _ _ Hlen Hnl). reflexivity.
-    + rewrite (parse_storage_nopat _ _ Hs Hns).
-      destruct (i_det_storage st) eqn:Hd; cbn [bind]; [reflexivity|].
-      rewrite (parse_serial_nopat (i_index st) data ltac:(lia) Hnl). reflexivity.
-  - destruct (i_det_serial st) eqn:Hd; cbn [stop_size min_size] in Hlen.
-    + cbn [bind]. rewrite Hok. rewrite (parse_serial_nopat _ _ Hlen Hnl). reflexivity.
-    + assert (Ha : (match parse_storage (i_index st) data with
-                    | PMsg n m => on_msg true st n m
-                    | PInvalid => if i_det_storage st then Ok (ASkip (skip1 st)) else Ok APass
-                    | PNotEnough _ => if false || i_det_storage st then Ok AStop else Ok APass
-                    end) = Ok APass).
-      { rewrite Hok. destruct (N.lt_ge_cases (blen data) 20) as [Hs|Hs].
-        - rewrite (parse_storage_short _ _ Hs). reflexivity.
-        - rewrite (parse_storage_nopat _ _ Hs Hns). reflexivity. }
-      rewrite Ha. cbn [bind]. rewrite Hok. rewrite (parse_serial_nopat _ _ Hlen Hnl). reflexivity.
+    destruct (i_det_storage st) eqn:Hd; cbn [stop_size min_size] in Hlen.
+    + rewrite (storage_half_nopat _ _ Hlen Hns), Hd. reflexivity.
+    + rewrite (Hsh eq_refl). cbn [bind]. rewrite Hse. reflexivity.
+  - destruct (i_det_serial st) eqn:Hd.
+    + cbn [bind]. rewrite Hok, Hse. reflexivity.
+    + rewrite (Hsh Hok). cbn [bind]. rewrite Hok, Hse. reflexivity.
 Qed.
 
 Lemma turn_stop f fuel st data :
   st_ok f st -> blen data < stop_size f (own_detected f st) ->
   next (S fuel) st data = Ok (None, st, data).
 Proof.
-  intros Hok Hlen. unfold next. rewrite next_S. unfold storage_half, serial_half.
+  intros Hok Hlen. unfold next. rewrite next_S.
+  assert (H20 : blen data < 20) by (pose proof (stop_size_le_min f (own_detected f st)); destruct f; cbn [min_size] in *; lia).
+  rewrite (storage_half_short _ _ H20).
+  assert (Hse : blen data < 8 -> serial_half st data = Ok AStop).
+  { intros H8. unfold serial_half. destruct (parse_serial_short (i_index st) data H8) as [k Hk]. rewrite Hk. reflexivity. }
   destruct f; cbn [st_ok own_detected] in *.
   - rewrite Hok. destruct (i_det_storage st) eqn:Hd; cbn [stop_size min_size] in Hlen.
-    + rewrite (parse_storage_short _ _ Hlen). rewrite orb_true_r. reflexivity.
-    + rewrite (parse_storage_short (i_index st) data ltac:(lia)). cbn [orb bind].
-      destruct (parse_serial_short (i_index st) data Hlen) as [k Hk]. rewrite Hk. reflexivity.
+    + reflexivity.
+    + cbn [bind]. rewrite (Hse Hlen). reflexivity.
   - destruct (i_det_serial st) eqn:Hd; cbn [stop_size min_size] in Hlen.
-    + cbn [bind]. rewrite Hok. destruct (parse_serial_short (i_index st) data Hlen) as [k Hk]. rewrite Hk. reflexivity.
-    + rewrite (parse_storage_short (i_index st) data ltac:(lia)). rewrite Hok. cbn [orb bind].
-      destruct (parse_serial_short (i_index st) data Hlen) as [k Hk]. rewrite Hk. reflexivity.
+    + cbn [bind]. rewrite Hok, (Hse Hlen). reflexivity.
+    + rewrite Hok. cbn [bind]. rewrite (Hse Hlen). reflexivity.
 Qed.
 
 Definition accept_cond (f : framing) (a : amsg) (rest : bytes) : Prop :=
@@ -145,14 +154,11 @@ Proof.
       unfold st_yield. rewrite enc_length. reflexivity. }
     destruct (i_det_serial st) eqn:Hd.
     + cbn [bind]. rewrite Hok. exact Hfin.
-    + assert (Ha : (match parse_storage (i_index st) (enc_serial a ++ rest) with
-                    | PMsg n m => on_msg true st n m
-                    | PInvalid => if i_det_storage st then Ok (ASkip (skip1 st)) else Ok APass
-                    | PNotEnough _ => if false || i_det_storage st then Ok AStop else Ok APass
-                    end) = Ok APass).
-      { rewrite Hok. destruct (N.lt_ge_cases (blen (enc_serial a ++ rest)) 20) as [Hs|Hs].
-        - rewrite (parse_storage_short _ _ Hs). reflexivity.
-        - rewrite (parse_storage_nopat _ _ Hs (is_storage_pat_enc_serial a rest)). reflexivity. }
+    + assert (Ha : storage_half false st (enc_serial a ++ rest) = Ok APass).
+      { destruct (N.lt_ge_cases (blen (enc_serial a ++ rest)) 20) as [Hs|Hs].
+        - rewrite (storage_half_short _ _ Hs), Hok. reflexivity.
+        - rewrite (storage_half_nopat _ _ Hs (is_storage_pat_enc_serial a rest)), Hok. reflexivity. }
+      unfold storage_half in Ha.
       rewrite Ha. cbn [bind]. rewrite Hok. exact Hfin.
 Qed.
 
@@ -445,3 +451,43 @@ Qed.
 
 (* the legacy (pre-repair) loop differs only while nothing is latched and fewer than 20 bytes remain *)
 Definition tiny_serial_witness : bytes := [68; 76; 83; 1; 32; 7; 0; 7; 97; 98; 99].
+
+(* a linear-time check of the marker hypothesis (for long example streams) *)
+Fixpoint marker_positions (off : nat) (l : bytes) : list nat :=
+  match l with
+  | [] => []
+  | _ :: t => (if any_marker l then [off] else []) ++ marker_positions (S off) t
+  end.
+Definition markers_only_at_starts_lin (f : framing) (segs : list seg) (gfin : bytes) : bool :=
+  forallb (fun p => existsb (Nat.eqb p) (starts f 0 segs)) (marker_positions 0 (stream f segs gfin)).
+
+Lemma marker_positions_complete : forall l off i,
+  any_marker (skipn i l) = true -> In (off + i)%nat (marker_positions off l).
+Proof.
+  induction l as [|x t IH]; intros off i H.
+  - destruct i; discriminate.
+  - cbn [marker_positions]. apply in_or_app. destruct i as [|i].
+    + left. cbn [skipn] in H. rewrite H. left. lia.
+    + right. cbn [skipn] in H. replace (off + S i)%nat with (S off + i)%nat by lia. apply IH; exact H.
+Qed.
+
+Lemma markers_only_at_starts_lin_sound f segs gfin :
+  markers_only_at_starts_lin f segs gfin = true -> markers_only_at_starts f segs gfin.
+Proof.
+  unfold markers_only_at_starts_lin, markers_only_at_starts. intros H i Hm.
+  rewrite forallb_forall in H.
+  specialize (H i (marker_positions_complete _ 0%nat i Hm)).
+  apply existsb_exists in H. destruct H as (j & Hj & E). apply Nat.eqb_eq in E. subst j. exact Hj.
+Qed.
+
+(* /repo commit 9045554: an incomplete storage-header message (valid header, at least 20 bytes in view, fewer bytes
+   than its length field announces) stops the iterator whether or not the storage framing is latched -- what is
+   recognised in the bytes behind it does not depend on a message having preceded them *)
+Lemma incomplete_storage_frame_stops fuel st d k :
+  i_det_serial st = false -> 20 <= blen d -> parse_storage (i_index st) d = PNotEnough k ->
+  next (S fuel) st d = Ok (None, st, d).
+Proof.
+  intros Hs Hl Hp. unfold next. rewrite next_S, Hs. unfold storage_half. rewrite Hp.
+  unfold MIN_DLT_MSG_SIZE. destruct (N.leb_spec 20 (blen d)) as [_|Hc]; [|lia].
+  rewrite orb_true_r. reflexivity.
+Qed.
